@@ -11,7 +11,7 @@ RULE = ('every UpgradedSignature returned by merge/embed/mask/forwards/signature
         'retrieval and discovery workloads is compared with a plain inspect.Signature twin built from the same data: str(), '
         'bind() and bind_partial() on every call shape, replace() contracts on the signature and each parameter (no override, joint overrides, every field alone incl. falsy values), and a '
         'comparison menagerie (None, 0, str, object(), plain twin, itself, upgraded copy, plain/upgraded objects differing in '
-        'one field) for ==, !=, symmetry, reflexivity, hash consistency and hashability. Defaults include unhashable ones; nested functions with postponed annotations are retrieved while a name they close over is still unbound; an annotation whose source_value() raises anything but NameError is a violation. Non-trivial: each structurally '
+        'one field) for ==, !=, symmetry, reflexivity, hash consistency and hashability. Defaults include unhashable ones; nested functions with postponed annotations are retrieved while a name they close over is still unbound; an annotation whose source_value() raises anything but NameError is a violation. A plain inspect.Signature coming out of an operation is a violation; from_callable and generator-fed constructors are judged like retrievals; plain parameters handed to replace()/the constructor come back upgraded. Non-trivial: each structurally '
         'distinct signature (string form + provenance shape), checked once.')
 ASSUMPTIONS = ['postponed annotations that cannot be evaluated are out of domain (== would propagate the NameError)']
 
